@@ -139,11 +139,11 @@ class Screen(_raw_display_base.Screen):
         Override this function to call from main thread in threaded
         applications.
         """
-        self.signal_handler_setter(signal.SIGTSTP, self._prev_sigtstp_handler or signal.SIG_DFL)
+        self.signal_handler_setter(signal.SIGTSTP, signal.SIG_DFL if self._prev_sigtstp_handler is None else self._prev_sigtstp_handler)
         if self._sigcont_hooked:  # otherwise the SIGCONT handler is still the application's own
-            self.signal_handler_setter(signal.SIGCONT, self._prev_sigcont_handler or signal.SIG_DFL)
+            self.signal_handler_setter(signal.SIGCONT, signal.SIG_DFL if self._prev_sigcont_handler is None else self._prev_sigcont_handler)
             self._sigcont_hooked = False
-        self.signal_handler_setter(signal.SIGWINCH, self._prev_sigwinch_handler or signal.SIG_DFL)
+        self.signal_handler_setter(signal.SIGWINCH, signal.SIG_DFL if self._prev_sigwinch_handler is None else self._prev_sigwinch_handler)
 
     def _mouse_tracking(self, enable: bool) -> None:
         super()._mouse_tracking(enable)
